@@ -214,6 +214,12 @@ def check_C07(ctx):
         extra_ord = sorted(set(ord_im["items"]) - {"cmp"})
         kcmp = ord_im["items"]["cmp"]
         ctx.check_shadow(HRANK, "cmp", "core::cmp::Ord", kcmp, None)
+        # every operator / method of the comparison traits that method-call syntax reaches: an inherent method of
+        # the same name would hide it
+        for tr_, names_ in (("core::cmp::PartialOrd", ("partial_cmp", "lt", "le", "gt", "ge")), ("core::cmp::Ord", ("max", "min", "clamp")), ("core::cmp::PartialEq", ("eq", "ne"))):
+            for nm_ in names_:
+                hidden = [im_["items"][nm_] for im_ in pdb.impl_ix.get((None, HRANK), []) if nm_ in im_["items"]]
+                rep.ob("C07.shadowing", "HandRank::%s" % nm_, not hidden, "an inherent method HandRank::%s hides %s::%s from method-call syntax" % (nm_, tr_, nm_), pdb.where(hidden[0]) if hidden else "")
         smc = ctx.summ(kcmp, [("r", ra), ("r", rb)])
         dag = smc.ret
         # the comparison may depend on (a, b) only through comparisons with constants and with each other
